@@ -1094,21 +1094,53 @@ example : concat false false [["a", "b"], ["b", "c"]] (.list ["b"]) [] =
 
 /-! ### 12. RollingReduction -/
 
-/-- FULL STATEMENT (false on the current tree): labels and order of `df.rolling(w).agg()[cols]` are `cols`.
-    Without grouping the rule does not re-apply the parent: the result has the input's column order, and a single
-    requested column becomes a Series (`df.rolling(2).sum()[['a']]`, N11). -/
-theorem C04_rolling_counterexample :
-    rolling ["a", "b", "c"] none (.list ["c", "a"]) [] = some { childs := [some (.many ["a", "c"])], keep := false } ∧
-    rolling ["a", "b", "c"] none (.list ["a"]) [] = some { childs := [some (.one "a")], keep := false } := by decide
-
-theorem C04_rolling_wf_partial (frame by_ : List Name) (p : Parent) (deps : List Dep) (rw : Rw)
-    (h : rolling frame (some by_) p deps = some rw) : ∃ child, rw.isKeep1 child ∧ Adequate frame by_ p.cols child := by
+/-- (full since D43) the rule re-applies the parent for grouped AND ungrouped rollings — except for the scalar
+    collapse — and keeps a sub-schema with the grouping columns and everything requested -/
+theorem C04_rolling_wf (frame : List Name) (gb : Option (List Name)) (p : Parent) (deps : List Dep) (rw : Rw)
+    (h : rolling frame gb p deps = some rw) :
+    (∃ child, rw.isKeep1 child ∧ Adequate frame (gb.getD []) p.cols child) ∨
+    (gb = none ∧ p.ndim1 = true ∧ ∃ c, rw.childs = [some (.one c)] ∧ rw.keep = false ∧ c ∈ frame ∧
+      frame.filter ((detProj p deps []).toList.contains ·) = [c]) := by
   unfold rolling at h
   simp only at h
-  split at h
-  · cases h
-  · cases h
-    exact ⟨_, ⟨rfl, rfl, rfl⟩, adequate_union_has frame p deps by_⟩
+  by_cases h1 : frame.filter ((detProj p deps (gb.getD [])).toList.contains ·) = frame
+  · rw [if_pos h1] at h; cases h
+  · rw [if_neg h1] at h
+    by_cases h2 : (gb.isNone && p.ndim1) = true
+    · rw [if_pos h2] at h
+      have hgb : gb = none := by
+        cases gb with
+        | none => rfl
+        | some b => simp at h2
+      subst hgb
+      have hnd : p.ndim1 = true := by simpa using h2
+      simp only [Option.getD_none] at h
+      generalize hc : frame.filter ((detProj p deps []).toList.contains ·) = cols at h
+      match cols, h with
+      | [c], h =>
+        cases h
+        refine Or.inr ⟨rfl, hnd, c, rfl, rfl, ?_, rfl⟩
+        have : c ∈ frame.filter ((detProj p deps []).toList.contains ·) := by rw [hc]; exact List.mem_singleton.mpr rfl
+        exact (List.mem_filter.mp this).1
+      | [], h =>
+        cases h
+        have had := adequate_union_contains frame p deps []
+        rw [hc] at had
+        exact Or.inl ⟨_, ⟨rfl, rfl, rfl⟩, had⟩
+      | _ :: _ :: _, h =>
+        cases h
+        have had := adequate_union_contains frame p deps []
+        rw [hc] at had
+        exact Or.inl ⟨_, ⟨rfl, rfl, rfl⟩, had⟩
+    · rw [if_neg h2] at h
+      cases h
+      exact Or.inl ⟨_, ⟨rfl, rfl, rfl⟩, adequate_union_contains frame p deps (gb.getD [])⟩
+
+-- the witnesses of the former finding D43: the list selections are re-applied (order, frame-ness); a scalar collapses
+example :
+    rolling ["a", "b", "c"] none (.list ["c", "a"]) [] = some { childs := [some (.many ["a", "c"])], keep := true } ∧
+    rolling ["a", "b", "c"] none (.list ["a"]) [] = some { childs := [some (.many ["a"])], keep := true } ∧
+    rolling ["a", "b", "c"] none (.scalar "a") [] = some { childs := [some (.one "a")], keep := false } := by decide
 
 /-! ### 13. `_simplify_down`: squashing projections, identity elimination, Drop -/
 
